@@ -151,8 +151,12 @@ def validator_content(ctx, prog):
             if s["s"] == "assign" and s["rv"]["r"] == "bin" and s["rv"]["op"] in ("Lt", "Le", "Gt", "Ge", "Eq", "Ne"):
                 a, b = gs.operand(s["rv"]["a"]), gs.operand(s["rv"]["b"])
                 cmps.append((s["rv"]["op"], strip(a), strip(b), g, s))
-    rng = [c for c in cmps if const_named(c[2], "block_hash::ALPHABET_SIZE") or const_named(c[1], "block_hash::ALPHABET_SIZE") or const_named(c[2], "base64::BASE64_INVALID") or const_named(c[1], "base64::BASE64_INVALID")]
-    ok = len(rng) == 2 and all(c[0] == "Ge" and const_named(c[2], "block_hash::ALPHABET_SIZE") and const_value(c[2]) == 64 for c in rng)
+    # the bound is the VALUE 64 (ALPHABET_SIZE under whatever name or cast it is spelled - a private `const X: u8 = ALPHABET_SIZE as u8`
+    # is the same bound); what matters is that both branches use `>=` against it
+    def v64(x):
+        return const_value(x) == 64
+    rng = [c for c in cmps if v64(c[2]) or v64(c[1])]
+    ok = len(rng) == 2 and all((c[0] == "Ge" and v64(c[2]) and not v64(c[1])) or (c[0] == "Le" and v64(c[1]) and not v64(c[2])) for c in rng)
     ctx.ob(RV, "verify_block_hash_internal: both symbol-range tests are `element >= ALPHABET_SIZE (64)` (normalisation branch and plain branch agree)", ok,
            "range comparisons: %s" % [(c[0], show(c[1])[:40], show(c[2])[:40]) for c in rng], f.loc())
     # `any(x != 0)` refused, or equivalently `all(x == 0)` required (the closure body of either spelling)
